@@ -184,7 +184,12 @@ def check_case(case: dict) -> Outcome:
             out.label("sampled-truth-table")
         if not ok:
             unsupported = [k for k in NOTEQ_ORDER if k in negk]
-            if cfg["not_eq"] and unsupported:
+            refd = list(_info["idents"]) + [n for _, _, sel in _info["selectors"] for n in sel]
+            if cfg["not_eq"] and negk and not unsupported and len(refd) != len(set(refd)):
+                # a detection referenced more than once: the negation is looked up through the
+                # parent chain of the shared detection objects, which only remembers the last reference
+                sig = "C01:noteq:detection-referenced-twice"
+            elif cfg["not_eq"] and unsupported:
                 # region of the known not-equals findings: one signature per negated operand kind
                 sig = "C01:noteq:" + unsupported[0]
             else:
@@ -277,7 +282,7 @@ def run(ctx) -> None:
         if i % ctx.nshards == ctx.shard:
             ctx.do(case)
     ctx.extra["exhaustive_part"] = "all condition shapes with <= 3 operators x 6 precedence orders x parenthesize x 3 operator spellings over single-atom detections"
-    n = 1500 if ctx.tier == "quick" else 12000
+    n = 1200 if ctx.tier == "quick" else 12000
     ctx.hyp(cases(not_eq=False), n, salt=1)
     ctx.hyp(cases(not_eq=True), n // 3, salt=2)
     ctx.hyp(noteq_supported_cases(), n // 3, salt=3)
